@@ -2,8 +2,10 @@ package props
 
 import (
 	"bytes"
+	"encoding/hex"
 	"fmt"
 	"reflect"
+	"sort"
 	"strings"
 	"testing"
 
@@ -52,6 +54,42 @@ func c11Same(what string, used, fresh c11Outcome) string {
 	return ""
 }
 
+func sortedNames(m map[string]string) []string {
+	out := make([]string, 0, len(m))
+	for k := range m {
+		out = append(out, k)
+	}
+	sort.Strings(out)
+	return out
+}
+
+func unhex(s string) []byte {
+	b, err := hex.DecodeString(strings.ReplaceAll(s, " ", ""))
+	if err != nil {
+		panic(err)
+	}
+	return b
+}
+
+// c11Leavers: inputs that are refused, or end early, after the decoder has already recorded something about them
+// (a type name, a class definition, a container). c11Sensitive[c11Pair[i]] is a message whose decoding would
+// change if what leaver i recorded were still there.
+var c11Leavers = [][]byte{
+	unhex("72 07 5b6e6f73756368 90 91"),       // typed list of the unregistered type "[nosuch"
+	unhex("4d 06 6e6f6d617070 0161 91 5a"),    // typed map of the unregistered type "nomapp"
+	unhex("43 0161 91 0178"),                  // class definition, then the end of the input
+	unhex("43 0161 91 0178 60"),               // class definition and instance tag, field missing
+	unhex("58 92 91"),                         // list of two, one element present
+	unhex("48 0161"),                          // map: a key, then the end of the input
+	unhex("56 07 5b6e6f73756368 91 90"),       // 'V' typed list of the unregistered type
+}
+var c11Pair = []int{0, 0, 1, 1, 2, 2, 0}
+var c11Sensitive = [][]byte{
+	unhex("58 92 72 04 5b696e74 90 91 73 90 92 93 94"), // the second typed list names its type by reference #0
+	unhex("60 91"),                                      // instance of class #0, no definition in this message
+	unhex("51 90"),                                      // reference #0, no container in this message
+}
+
 func TestC11(t *testing.T) {
 	r := rec.For("C11")
 	cfg := zoo.DefaultCfg()
@@ -70,6 +108,21 @@ func TestC11(t *testing.T) {
 			}
 			vals = append(vals, v)
 			descs = append(descs, shape+" "+zoo.Describe(v, 100))
+		}
+		// values whose effect on an instance is easy to miss: nothing but empty containers (they take ordinals but
+		// leave no entry behind), the same pointer twice (back-references), strings and doubles (scratch buffers)
+		if rapid.Bool().Draw(rt, "withSpecials") {
+			in := &zoo.Inner{A: 3, S: "twice"}
+			for _, sp := range []interface{}{
+				[]string{}, &zoo.SlStr{L: []string{}}, []interface{}{},
+				&zoo.SlPtr{L: []*zoo.Inner{in, in, nil, in}}, []interface{}{in, "s", in},
+				&zoo.StrCarrier{S: "first string", L: []string{"second", "third"}}, &zoo.FloatFields{F64: 0.1, L64: []float64{2.5, 0.3}},
+			} {
+				if rapid.Bool().Draw(rt, "special") {
+					vals = append(vals, sp)
+					descs = append(descs, "special "+zoo.Describe(sp, 100))
+				}
+			}
 		}
 		if len(vals) < 2 {
 			rt.Skip("too few values")
@@ -109,7 +162,8 @@ func TestC11(t *testing.T) {
 				}
 			}
 			if kind == "Decoder" {
-				for k, v := range tm {
+				for _, k := range mapKeys(tm) {
+					v := tm[k]
 					if v.Kind() == reflect.Struct && rapid.Bool().Draw(rt, "holdBackType") {
 						pendingTypes[k] = v
 						delete(tm, k)
@@ -171,8 +225,12 @@ func TestC11(t *testing.T) {
 		bad := func() interface{} {
 			return []interface{}{int32(1), unsupportedValue(rapid.SampledFrom([]string{"chan", "func", "complex128", "uintptr"}).Draw(rt, "bad")), "x"}
 		}
+		lastLeaver := -1
 		garb := func() []byte {
-			switch rapid.IntRange(0, 2).Draw(rt, "garbageKind") {
+			switch rapid.IntRange(0, 3).Draw(rt, "garbageKind") {
+			case 3:
+				lastLeaver = rapid.IntRange(0, len(c11Leavers)-1).Draw(rt, "leaver")
+				return c11Leavers[lastLeaver]
 			case 0:
 				return garbage[rapid.IntRange(0, len(garbage)-6).Draw(rt, "garbage")] // not the 64 KiB bombs
 			case 1:
@@ -223,13 +281,13 @@ func TestC11(t *testing.T) {
 					switch kind {
 					case "Serializer":
 						if rapid.Bool().Draw(rt, "failWriter") {
-							ser.WriteTo(&faultWriter{k: 2, mode: 1}, vals[pickV()])
+							ser.WriteTo(&faultWriter{k: rapid.IntRange(1, 12).Draw(rt, "failAt"), mode: rapid.IntRange(0, c15Modes-1).Draw(rt, "failMode")}, vals[pickV()])
 						} else {
 							ser.ToBytes(bad())
 						}
 					case "Encoder":
 						if rapid.Bool().Draw(rt, "failWriter") {
-							e.WriteTo(&faultWriter{k: 2, mode: 1}, vals[pickV()])
+							e.WriteTo(&faultWriter{k: rapid.IntRange(1, 12).Draw(rt, "failAt"), mode: rapid.IntRange(0, c15Modes-1).Draw(rt, "failMode")}, vals[pickV()])
 						} else {
 							e.Encode(bad())
 						}
@@ -334,14 +392,16 @@ func TestC11(t *testing.T) {
 				case act == 6 && (len(pendingNames) > 0 || len(pendingTypes) > 0):
 					// register one of the entries held back (the instance's map is the caller's map)
 					if kind == "Encoder" {
-						for k, v := range pendingNames {
+						for _, k := range sortedNames(pendingNames) {
+							v := pendingNames[k]
 							e.RegisterNameType(k, v)
 							nmBefore[k] = v
 							delete(pendingNames, k)
 							break
 						}
 					} else {
-						for k, v := range pendingTypes {
+						for _, k := range mapKeys(pendingTypes) {
+							v := pendingTypes[k]
 							if rapid.Bool().Draw(rt, "registerVal") {
 								d.RegisterVal(k, reflect.Zero(v).Interface())
 							} else {
@@ -383,9 +443,13 @@ func TestC11(t *testing.T) {
 		// ---- probe: the used instance against a fresh one with the same maps
 		pi, qi := pickV(), pickV()
 		var q []byte
-		if rapid.IntRange(0, 3).Draw(rt, "probeGarbage") == 0 {
+		switch {
+		case lastLeaver >= 0 && rapid.Bool().Draw(rt, "probeSensitive"):
+			// the message that would read differently if the refused one had left something behind
+			q = c11Sensitive[c11Pair[lastLeaver]]
+		case rapid.IntRange(0, 3).Draw(rt, "probeGarbage") == 0:
 			q = garb()
-		} else {
+		default:
 			q = enc[qi]
 		}
 		var used, fresh c11Outcome
